@@ -218,14 +218,20 @@ func RunCase(p *Plan) (res *Result) {
 	x.lg.mu.Unlock()
 	x.shape()
 
-	if res.Violation == nil {
-		// The quit we sent ourselves is not part of the history: cut the
-		// log at the shutdown mark for the end-state check.
-		v, st := Walk(x.walkCfg(), x.judgedLog(res.Log), x.finalNode(), x.endNode())
-		res.Stats = st
-		if v != nil && res.Inconclusive != "" && strings.HasPrefix(v.Rule, "walk-ends") {
-			v = nil // the end state was not reached: already inconclusive
-		}
+	// The quit we sent ourselves is not part of the history: the log is cut
+	// at the shutdown mark for the end-state check. The walk is judged even
+	// when the stuck analysis already fired: a broken walk is the more
+	// precise finding.
+	final := x.finalNode()
+	if res.Violation != nil {
+		final = nil
+	}
+	v, st := Walk(x.walkCfg(), x.judgedLog(res.Log), final, x.endNode())
+	res.Stats = st
+	if v != nil && (res.Inconclusive != "" || res.Violation != nil) && strings.HasPrefix(v.Rule, "walk-ends") {
+		v = nil // the end state was not reached: already reported / inconclusive
+	}
+	if v != nil {
 		res.Violation = v
 	}
 	res.Nontrivial = ncb >= 3 && (res.Reorgs+res.Updates+res.Retries+res.Parks+res.Lagged > 0)
@@ -366,8 +372,9 @@ func (x *runner) handlers() rpcclient.NotificationHandlers {
 	h := rpcclient.NotificationHandlers{
 		OnFilteredBlockConnected: func(height int32, hdr *wire.BlockHeader, txs []*btcutil.Tx) {
 			pk := c.enter("cb-connected")
+			via, _ := c.via.Swap("unknown").(string)
 			x.lg.add(Ev{Kind: EvConn, Height: height, Hash: hdr.BlockHash(), Prev: hdr.PrevBlock,
-				Time: hdr.Timestamp.Unix(), txs: txHashes(txs)})
+				Time: hdr.Timestamp.Unix(), txs: txHashes(txs), Note: "via " + via})
 			c.leave("cb-connected", pk)
 		},
 		OnFilteredBlockDisconnected: func(height int32, hdr *wire.BlockHeader) {
